@@ -12,8 +12,10 @@ NR == Len(FReqs)
 LWs == {20, 40, 80, 120}
 IWs == {0, 2, 4}
 Slots2 == SUBSET {"principal", "resource"}
-LinkTids == {"T_l", "T_l5", "T_l6", "tmpl", "nope", "policy0"}
-LinkNids == {"fresh", "l", "l5", "T_l", "tmpl", "policy0"}
+\* cedar link: per source its own template ids (plus an unknown id and a static policy's id) x the ids in use (plus a fresh one)
+\* x every subset of the slots
+TemplateIds(k) == {FrTid(p, FrPolSources[k].shape, TRUE) : p \in {q \in FrPolsOf(k) : FrIsTemplate(q)}}
+LinkCases(k) == {<<"cliLink", k, t, n, g>> : t \in TemplateIds(k) \cup {"nope", "policy0"}, n \in FrCliIdsInUse(k) \cup {"fresh"}, g \in Slots2}
 Kinds == {"authorize", "validate", "checkParse", "convPolicy", "convSchema", "format", "parts",
           "cliAuthorize", "cliValidate", "cliCheckParse", "cliFormat", "cliTranslatePolicy", "cliTranslateSchema", "cliLink"}
 CasesOf(kind) ==
@@ -24,7 +26,7 @@ CasesOf(kind) ==
                               \cup {<<"checkParse", "entities", e, j, FALSE>> : e \in 1..FrNE, j \in 0..FrNS}
                               \cup {<<"checkParse", "context", r, j, a>> : r \in 1..NR, j \in 0..FrNS, a \in BOOLEAN}
     [] kind = "convPolicy" -> {<<"convPolicy", n, d>> : n \in 1..FrNConv, d \in {"toJson", "toText"}}
-    [] kind = "convSchema" -> {<<"convSchema", j, d>> : j \in 1..FrNS, d \in {"toJson", "toText"}}
+    [] kind = "convSchema" -> {<<"convSchema", j, d>> : j \in 1..FrNS, d \in {"toJson", "toText", "toJsonResolved"}}
     [] kind = "format" -> {<<"format", k, lw, iw>> : k \in 1..FrNP, lw \in LWs, iw \in IWs}
     [] kind = "parts" -> {<<"parts", k>> : k \in 1..FrNP}
     [] kind = "cliAuthorize" -> {<<"cliAuthorize", k, j, v, r, vb, f>> : k \in 1..FrNP, j \in 0..FrNS, v \in BOOLEAN, r \in 1..NR,
@@ -33,8 +35,8 @@ CasesOf(kind) ==
     [] kind = "cliCheckParse" -> {<<"cliCheckParse", k, j, e>> : k \in 0..FrNP, j \in 0..FrNS, e \in 0..FrNE} \ {<<"cliCheckParse", 0, 0, 0>>}
     [] kind = "cliFormat" -> {<<"cliFormat", k, lw, iw, ch>> : k \in 1..FrNP, lw \in {40, 80}, iw \in {2, 4}, ch \in BOOLEAN}
     [] kind = "cliTranslatePolicy" -> {<<"cliTranslatePolicy", k, d>> : k \in 1..FrNP, d \in {"cedar-to-json", "json-to-cedar"}}
-    [] kind = "cliTranslateSchema" -> {<<"cliTranslateSchema", j, d>> : j \in 1..FrNS, d \in {"cedar-to-json", "json-to-cedar"}}
-    [] kind = "cliLink" -> {<<"cliLink", k, t, n, g>> : k \in {1, 4, 11, 13}, t \in LinkTids, n \in LinkNids, g \in Slots2}
+    [] kind = "cliTranslateSchema" -> {<<"cliTranslateSchema", j, d>> : j \in 1..FrNS, d \in {"cedar-to-json", "json-to-cedar", "cedar-to-json-with-resolved-types"}}
+    [] kind = "cliLink" -> UNION {LinkCases(k) : k \in {1, 4, 11, 13}}
 Init == coord \in Kinds /\ c = <<>>
 Next == c = <<>> /\ c' \in CasesOf(coord) /\ UNCHANGED coord
 Dump == PrintT("CASE " \o ToJson([op |-> c']))
